@@ -5,7 +5,7 @@ well-formed chunks (`id`, 32-bit little-endian payload length, payload) the loop
 `Woz1::from_bytes` / `Woz2::from_bytes` finds every chunk, in order, at the offset it was written to.
 -/
 namespace A2Verif.Lemmas.C09Woz
-open A2Verif.Model.C09Woz A2Verif.Model.C09Crc
+open A2Verif.Model.C09Woz A2Verif.Model.C09Crc A2Verif.Gen.C09Const
 
 /-- what the walk must report for chunks written from offset `p` on -/
 def founds : Nat → List Chunk → List Found
@@ -116,5 +116,336 @@ theorem walkFrom_chunks (cs : List Chunk) :
         have hf' : cs.length < f := by simp at hf; omega
         have := ih (pre ++ chunkBytes c) f (by rw [hpl]; omega) hf' hrest
         exact this
+
+/-! ## payload slicing, field copies, re-basing (WOZ2 object level) -/
+
+/-- the known chunks with the offsets they are written to -/
+def withPtrs : Nat → List Chunk → List (Nat × Chunk)
+  | _, [] => []
+  | p, c :: cs => (if knownId c.id then [(p, c)] else []) ++ withPtrs (p + 8 + c.payload.length) cs
+
+def slice (buf : List Nat) (f : Found) : Option (Nat × Chunk) :=
+  if f.known then some (f.ptr, { id := f.id, payload := (buf.drop (f.ptr + 8)).take f.size }) else none
+
+theorem readChunks_eq (buf : List Nat) : readChunks buf = (walk buf).filterMap (slice buf) := rfl
+
+theorem founds_slice (cs : List Chunk) : ∀ (pre B : List Nat), B = pre ++ flat cs →
+    (founds pre.length cs).filterMap (slice B) = withPtrs pre.length cs := by
+  induction cs with
+  | nil => intro pre B _; rfl
+  | cons c cs ih =>
+    intro pre B hB
+    have hB' : B = (pre ++ chunkBytes c) ++ flat cs := by rw [hB, flat_cons, List.append_assoc]
+    have hpl : (pre ++ chunkBytes c).length = pre.length + 8 + c.payload.length := by
+      rw [List.length_append, chunkBytes_length]; omega
+    have ih' := ih (pre ++ chunkBytes c) B hB'
+    rw [hpl] at ih'
+    have hpay : (B.drop (pre.length + 8)).take c.payload.length = c.payload := by
+      have : B = (pre ++ (le32 c.id ++ le32 c.payload.length)) ++ (c.payload ++ flat cs) := by
+        rw [hB, flat_cons]; simp [chunkBytes]
+      rw [this]
+      have hl : (pre ++ (le32 c.id ++ le32 c.payload.length)).length = pre.length + 8 := by simp [le32]
+      rw [← hl, List.drop_left]; simp
+    simp only [founds, List.filterMap_cons, slice, hpay, withPtrs, ih']
+    cases knownId c.id <;> simp
+
+theorem readChunks_chunks (hdr : List Nat) (hh : hdr.length = 12) (cs : List Chunk)
+    (hall : ∀ c ∈ cs, c.id < 4294967296 ∧ c.payload.length < 4294967296) :
+    readChunks (hdr ++ flat cs) = withPtrs 12 cs := by
+  have hw : walk (hdr ++ flat cs) = founds 12 cs := by
+    have h := walkFrom_chunks cs hdr ((hdr ++ flat cs).length + 1) (by omega)
+      (by
+        have : cs.length ≤ (flat cs).length := by
+          clear hall
+          induction cs with
+          | nil => simp
+          | cons c cs ih => rw [flat_cons, List.length_append, chunkBytes_length, List.length_cons]; omega
+        rw [List.length_append]; omega) hall
+    rw [hh] at h
+    exact h
+  rw [readChunks_eq, hw]
+  have := founds_slice cs hdr (hdr ++ flat cs) rfl
+  rw [hh] at this
+  exact this
+
+/-! TRK entries -/
+
+def TrkWf (t : Trk) : Prop := t.start < 65536 ∧ t.count < 65536 ∧ t.bitCount.length = 4
+
+instance (t : Trk) : Decidable (TrkWf t) := by unfold TrkWf; exact inferInstance
+
+theorem trkBytes_length (t : Trk) (h : TrkWf t) : (trkBytes t).length = 8 := by
+  simp [trkBytes, le16, h.2.2]
+
+theorem trks_flat_length (ts : List Trk) (h : ∀ t ∈ ts, TrkWf t) : ((ts.map trkBytes).flatten).length = 8 * ts.length := by
+  induction ts with
+  | nil => rfl
+  | cons t ts ih =>
+    have := trkBytes_length t (h t (by simp))
+    have := ih (fun u hu => h u (by simp [hu]))
+    simp only [List.map_cons, List.flatten_cons, List.length_append, List.length_cons]; omega
+
+theorem unle16_le16' (n : Nat) (h : n < 65536) : unle16 (n % 256) (n / 256 % 256) = n := by
+  simp only [unle16]; omega
+
+theorem parseTrks_flat (ts : List Trk) (h : ∀ t ∈ ts, TrkWf t) (rest : List Nat) :
+    parseTrks ts.length ((ts.map trkBytes).flatten ++ rest) = ts := by
+  induction ts with
+  | nil => rfl
+  | cons t ts ih =>
+    obtain ⟨hs, hc, hb⟩ := h t (by simp)
+    have ht := ih (fun u hu => h u (by simp [hu]))
+    obtain ⟨st, ct, bc⟩ := t
+    simp only at hs hc hb
+    match bc, hb with
+    | [b0, b1, b2, b3], _ =>
+      simp only [List.map_cons, List.flatten_cons, List.length_cons, parseTrks, trkBytes, le16,
+        List.cons_append, List.nil_append, List.getD_eq_getElem?_getD]
+      simp [unle16_le16' st hs, unle16_le16' ct hc, ht]
+
+/-! the dispatch over the creator's chunk list -/
+
+def tailOf (mt wt : Option (List Nat)) : List Chunk :=
+  (match mt with | some p => [⟨META_ID, p⟩] | none => []) ++ (match wt with | some wp => [⟨WRIT_ID, wp⟩] | none => [])
+
+def creatorChunks (ip tp : List Nat) (ts : List Trk) (bits : List Nat) (mt wt : Option (List Nat)) : List Chunk :=
+  [⟨INFO_ID, ip⟩, ⟨TMAP_ID, tp⟩, ⟨TRKS_ID, (ts.map trkBytes).flatten ++ bits⟩] ++ tailOf mt wt
+
+theorem fold_creator (init : Woz2) (ip tp : List Nat) (ts : List Trk) (bits : List Nat) (mt wt : Option (List Nat))
+    (hi : ip.length = 60) (ht : tp.length = 160) (hts : ts.length = 160) (htw : ∀ t ∈ ts, TrkWf t)
+    (hb : bits.length % 512 = 0) (hsz : 1280 + bits.length < 4294967296)
+    (hm0 : init.metaTxt = none) (hw0 : init.writ = none) :
+    foldSteps init (withPtrs 12 (creatorChunks ip tp ts bits mt wt)) =
+      some { init with info := chunkBytes ⟨INFO_ID, ip⟩, tmap := chunkBytes ⟨TMAP_ID, tp⟩,
+                       trksSize := le32 (1280 + bits.length), trks := ts, bits := bits,
+                       metaTxt := mt, writ := wt.map (fun wp => chunkBytes ⟨WRIT_ID, wp⟩), off := 1536 } := by
+  have hfl := trks_flat_length ts htw
+  have hplen : ((ts.map trkBytes).flatten ++ bits).length = 1280 + bits.length := by
+    rw [List.length_append, hfl, hts]
+  have hK : chunkBytes ⟨TRKS_ID, (ts.map trkBytes).flatten ++ bits⟩ =
+      le32 TRKS_ID ++ le32 (1280 + bits.length) ++ ((ts.map trkBytes).flatten ++ bits) := by
+    simp only [chunkBytes, hplen]
+  have hKlen : (chunkBytes ⟨TRKS_ID, (ts.map trkBytes).flatten ++ bits⟩).length = 1288 + bits.length := by
+    rw [chunkBytes_length, hplen]; omega
+  have hsize : ((chunkBytes ⟨TRKS_ID, (ts.map trkBytes).flatten ++ bits⟩).drop 4).take 4 = le32 (1280 + bits.length) := by
+    rw [hK]; simp [le32]
+  have hd8 : (chunkBytes ⟨TRKS_ID, (ts.map trkBytes).flatten ++ bits⟩).drop 8 = (ts.map trkBytes).flatten ++ bits := by
+    rw [hK]; simp [le32]
+  have hparse : parseTrks 160 ((chunkBytes ⟨TRKS_ID, (ts.map trkBytes).flatten ++ bits⟩).drop 8) = ts := by
+    rw [hd8, ← hts]; exact parseTrks_flat ts htw bits
+  have hbits : (chunkBytes ⟨TRKS_ID, (ts.map trkBytes).flatten ++ bits⟩).drop 1288 = bits := by
+    have : 1288 = (le32 TRKS_ID ++ le32 (1280 + bits.length) ++ (ts.map trkBytes).flatten).length := by
+      simp [le32, hfl, hts]
+    rw [hK, this, ← List.append_assoc, List.drop_left]
+  have hI : (chunkBytes ⟨INFO_ID, ip⟩).length = 68 := by rw [chunkBytes_length]; simp [hi]
+  have hT : (chunkBytes ⟨TMAP_ID, tp⟩).length = 168 := by rw [chunkBytes_length]; simp [ht]
+  have hmod : (1280 + bits.length) % 4294967296 = 1280 + bits.length := Nat.mod_eq_of_lt hsz
+  have k1 : knownId INFO_ID = true := by decide
+  have k2 : knownId TMAP_ID = true := by decide
+  have k3 : knownId TRKS_ID = true := by decide
+  have k4 : knownId META_ID = true := by decide
+  have k5 : knownId WRIT_ID = true := by decide
+  have e21 : ¬ (TMAP_ID = INFO_ID) := by decide
+  have e31 : ¬ (TRKS_ID = INFO_ID) := by decide
+  have e32 : ¬ (TRKS_ID = TMAP_ID) := by decide
+  have e41 : ¬ (META_ID = INFO_ID) := by decide
+  have e42 : ¬ (META_ID = TMAP_ID) := by decide
+  have e43 : ¬ (META_ID = TRKS_ID) := by decide
+  have e51 : ¬ (WRIT_ID = INFO_ID) := by decide
+  have e52 : ¬ (WRIT_ID = TMAP_ID) := by decide
+  have e53 : ¬ (WRIT_ID = TRKS_ID) := by decide
+  have e54 : ¬ (WRIT_ID = META_ID) := by decide
+  have s1 : ∀ st : Woz2, step2 st (12, ⟨INFO_ID, ip⟩) = some { st with info := chunkBytes ⟨INFO_ID, ip⟩ } := by
+    intro st
+    simp only [step2, if_true, hI]
+    have : (chunkBytes ⟨INFO_ID, ip⟩).take 68 = chunkBytes ⟨INFO_ID, ip⟩ := by rw [← hI, List.take_length]
+    simp [this]
+  have s2 : ∀ (st : Woz2) (p : Nat), step2 st (p, ⟨TMAP_ID, tp⟩) = some { st with tmap := chunkBytes ⟨TMAP_ID, tp⟩ } := by
+    intro st p
+    simp only [step2, if_neg e21, if_true, hT]
+    have : (chunkBytes ⟨TMAP_ID, tp⟩).take 168 = chunkBytes ⟨TMAP_ID, tp⟩ := by rw [← hT, List.take_length]
+    simp [this]
+  have s3 : ∀ (st : Woz2) (p : Nat), step2 st (p, ⟨TRKS_ID, (ts.map trkBytes).flatten ++ bits⟩) =
+      some { st with off := p + 1288, trksSize := le32 (1280 + bits.length), trks := ts, bits := bits } := by
+    intro st p
+    simp only [step2, if_neg e31, if_neg e32, if_true, hKlen, hplen, hmod, hsize, hparse, hbits]
+    have a1 : ¬ (1288 + bits.length < 1288) := by omega
+    have a2 : ¬ (1280 + bits.length < 1280) := by omega
+    have a3 : ¬ ((1280 + bits.length - 1280) % 512 > 0) := by
+      have : 1280 + bits.length - 1280 = bits.length := by omega
+      rw [this, hb]; omega
+    simp only [if_neg a1, if_neg a2, if_neg a3]
+  have s4 : ∀ (st : Woz2) (p : Nat) (q : List Nat), step2 st (p, ⟨META_ID, q⟩) = some { st with metaTxt := some q } := by
+    intro st p q
+    simp only [step2, if_neg e41, if_neg e42, if_neg e43, if_true]
+  have s5 : ∀ (st : Woz2) (p : Nat) (q : List Nat), step2 st (p, ⟨WRIT_ID, q⟩) = some { st with writ := some (chunkBytes ⟨WRIT_ID, q⟩) } := by
+    intro st p q
+    simp only [step2, if_neg e51, if_neg e52, if_neg e53, if_neg e54, if_true]
+  cases mt <;> cases wt <;>
+    simp [creatorChunks, tailOf, withPtrs, k1, k2, k3, k4, k5, foldSteps, s1, s2, s3, s4, s5, hi, ht, hplen, hm0, hw0]
+
+/-- what `Woz2::create` establishes and sector writes / metadata edits keep -/
+structure Woz2Wf (x : Woz2) : Prop where
+  magic : x.magic.length = 8 ∧ x.magic.take 4 = [0x57, 0x4F, 0x5A, 0x32]
+  info : ∃ ip, x.info = chunkBytes ⟨INFO_ID, ip⟩ ∧ ip.length = 60
+  tmap : ∃ tp, x.tmap = chunkBytes ⟨TMAP_ID, tp⟩ ∧ tp.length = 160
+  trksN : x.trks.length = 160
+  trksW : ∀ t ∈ x.trks, TrkWf t
+  bitsB : x.bits.length % 512 = 0
+  bitsS : 1280 + x.bits.length < 4294967296
+  size : x.trksSize = le32 (1280 + x.bits.length)
+  metaS : ∀ p, x.metaTxt = some p → p.length < 4294967296
+  writ : ∀ w, x.writ = some w → ∃ wp, w = chunkBytes ⟨WRIT_ID, wp⟩ ∧ wp.length < 4294967296
+  flux : ¬ (x.info.getD 8 0 ≥ 3 ∧ (x.info.drop 54).take 2 ≠ [0, 0] ∧ (x.info.drop 56).take 2 ≠ [0, 0])
+  kind : (x.info.getD 9 0 = 1 ∧ x.info.getD 45 0 = 1) ∨ (x.info.getD 9 0 = 2 ∧ x.info.getD 45 0 = 1) ∨
+    (x.info.getD 9 0 = 2 ∧ x.info.getD 45 0 = 2)
+
+theorem body2_flat (x : Woz2) (h : Woz2Wf x) :
+    ∃ ip tp wt, ip.length = 60 ∧ tp.length = 160 ∧ x.info = chunkBytes ⟨INFO_ID, ip⟩ ∧ x.tmap = chunkBytes ⟨TMAP_ID, tp⟩ ∧
+      x.writ = wt.map (fun wp => chunkBytes ⟨WRIT_ID, wp⟩) ∧
+      body2 x = flat (creatorChunks ip tp x.trks x.bits x.metaTxt wt) ∧
+      (∀ c ∈ creatorChunks ip tp x.trks x.bits x.metaTxt wt, c.id < 4294967296 ∧ c.payload.length < 4294967296) := by
+  obtain ⟨ip, hi, hil⟩ := h.info
+  obtain ⟨tp, ht, htl⟩ := h.tmap
+  have hfl := trks_flat_length x.trks h.trksW
+  have hplen : ((x.trks.map trkBytes).flatten ++ x.bits).length = 1280 + x.bits.length := by
+    rw [List.length_append, hfl, h.trksN]
+  have hK : trksChunk x = chunkBytes ⟨TRKS_ID, (x.trks.map trkBytes).flatten ++ x.bits⟩ := by
+    simp only [trksChunk, chunkBytes, hplen, h.size, List.append_assoc]
+  have i1 : INFO_ID < 4294967296 := by decide
+  have i2 : TMAP_ID < 4294967296 := by decide
+  have i3 : TRKS_ID < 4294967296 := by decide
+  have i4 : META_ID < 4294967296 := by decide
+  have i5 : WRIT_ID < 4294967296 := by decide
+  have hs := h.bitsS
+  cases hm : x.metaTxt with
+  | none =>
+    cases hw : x.writ with
+    | none =>
+      refine ⟨ip, tp, none, hil, htl, hi, ht, rfl, ?_, ?_⟩
+      · simp [body2, metaChunk, hm, hw, creatorChunks, tailOf, flat, hi, ht, hK]
+      · intro c hc
+        simp only [creatorChunks, tailOf, List.append_nil, List.mem_cons, List.not_mem_nil, or_false] at hc
+        rcases hc with rfl | rfl | rfl <;> simp_all <;> omega
+    | some w =>
+      obtain ⟨wp, hwp, hwl⟩ := h.writ w hw
+      refine ⟨ip, tp, some wp, hil, htl, hi, ht, by simp [hwp], ?_, ?_⟩
+      · simp [body2, metaChunk, hm, hw, creatorChunks, tailOf, flat, hi, ht, hK, hwp]
+      · intro c hc
+        simp only [creatorChunks, tailOf, List.nil_append, List.cons_append, List.mem_cons, List.not_mem_nil, or_false] at hc
+        rcases hc with rfl | rfl | rfl | rfl <;> simp_all <;> omega
+  | some p =>
+    have hpl := h.metaS p hm
+    have hpm : p.length % 4294967296 = p.length := Nat.mod_eq_of_lt hpl
+    cases hw : x.writ with
+    | none =>
+      refine ⟨ip, tp, none, hil, htl, hi, ht, rfl, ?_, ?_⟩
+      · simp [body2, metaChunk, hm, hw, creatorChunks, tailOf, flat, hi, ht, hK, chunkBytes, hpm]
+      · intro c hc
+        simp only [creatorChunks, tailOf, List.append_nil, List.cons_append, List.nil_append, List.mem_cons, List.not_mem_nil, or_false] at hc
+        rcases hc with rfl | rfl | rfl | rfl <;> simp_all <;> omega
+    | some w =>
+      obtain ⟨wp, hwp, hwl⟩ := h.writ w hw
+      refine ⟨ip, tp, some wp, hil, htl, hi, ht, by simp [hwp], ?_, ?_⟩
+      · simp [body2, metaChunk, hm, hw, creatorChunks, tailOf, flat, hi, ht, hK, hwp, chunkBytes, hpm]
+      · intro c hc
+        simp only [creatorChunks, tailOf, List.cons_append, List.nil_append, List.mem_cons, List.not_mem_nil, or_false] at hc
+        rcases hc with rfl | rfl | rfl | rfl | rfl <;> simp_all <;> omega
+
+/-- **creator layout**: what `to_bytes` writes for an object with the standard offset is parsed back to the same object -/
+theorem woz2_fromBytes_body (x : Woz2) (h : Woz2Wf x) (ho : x.off = 1536) (c : Nat) :
+    fromBytes2 (x.magic ++ le32 c ++ body2 x) = some x := by
+  obtain ⟨ip, tp, wt, hil, htl, hi, ht, hw, hbody, hall⟩ := body2_flat x h
+  have hh : (x.magic ++ le32 c).length = 12 := by simp [h.magic.1, le32]
+  have hlen : ¬ ((x.magic ++ le32 c ++ body2 x).length < 12) := by
+    rw [List.length_append, hh]; omega
+  have ht4 : (x.magic ++ le32 c ++ body2 x).take 4 = [0x57, 0x4F, 0x5A, 0x32] := by
+    have : (x.magic ++ le32 c ++ body2 x).take 4 = x.magic.take 4 := by
+      rw [List.append_assoc, List.take_append_of_le_length (by rw [h.magic.1]; omega)]
+    rw [this, h.magic.2]
+  have ht8 : (x.magic ++ le32 c ++ body2 x).take 8 = x.magic := by
+    rw [List.append_assoc, ← h.magic.1, List.take_left]
+  unfold fromBytes2
+  rw [if_neg hlen, ht4]
+  simp only [ne_eq, not_true_eq_false, if_false, ht8]
+  rw [hbody, readChunks_chunks _ hh _ hall]
+  rw [fold_creator _ ip tp x.trks x.bits x.metaTxt wt hil htl h.trksN h.trksW h.bitsB h.bitsS rfl rfl]
+  simp only [← hi, ← ht]
+  rw [if_neg h.flux, if_neg (fun hn => hn h.kind)]
+  have hne : ¬ (x.info = [] ∨ x.tmap = [] ∨ x.trks = []) := by
+    intro hor
+    rcases hor with h1 | h1 | h1
+    · rw [hi] at h1; simp [chunkBytes, le32] at h1
+    · rw [ht] at h1; simp [chunkBytes, le32] at h1
+    · have := h.trksN; rw [h1] at this; simp at this
+  rw [if_neg hne]
+  have hsz := h.size
+  cases x
+  simp_all
+
+/-! the re-basing of `to_bytes` for an object loaded from a file with another chunk layout -/
+
+theorem rebase_std (x : Woz2) (ho : x.off = 1536) : rebase x = some x := by simp [rebase, ho]
+
+theorem rebase_some (x : Woz2) (hoff : x.off % 512 = 0) : ∃ y, rebase x = some y ∧ y.off = 1536 := by
+  by_cases ho : x.off = 1536
+  · exact ⟨x, rebase_std x ho, ho⟩
+  · simp only [rebase, if_neg ho]
+    have : ¬ (x.off % 512 ≠ 0) := by omega
+    rw [if_neg this]
+    exact ⟨_, rfl, rfl⟩
+
+theorem rebase_wf (x y : Woz2) (h : Woz2Wf x) (hr : rebase x = some y) : Woz2Wf y := by
+  by_cases ho : x.off = 1536
+  · rw [rebase_std x ho] at hr; cases hr; exact h
+  · simp only [rebase, if_neg ho] at hr
+    by_cases hm : x.off % 512 ≠ 0
+    · rw [if_pos hm] at hr; cases hr
+    · rw [if_neg hm] at hr
+      cases hr
+      refine ⟨h.magic, h.info, h.tmap, by simp [h.trksN], ?_, h.bitsB, h.bitsS, h.size, h.metaS, h.writ, h.flux, h.kind⟩
+      intro t ht
+      simp only [List.mem_map] at ht
+      obtain ⟨u, hu, rfl⟩ := ht
+      have hw := h.trksW u hu
+      by_cases hge : u.start ≥ x.off / 512
+      · simp only [if_pos hge]
+        exact ⟨Nat.mod_lt _ (by decide), hw.2.1, hw.2.2⟩
+      · simp only [if_neg hge]; exact hw
+
+theorem rebase_arith (s k : Nat) (hge : s ≥ k) :
+    ((s + 3 - k) * 512 < 1536 ↔ s * 512 < 512 * k) ∧ (s + 3 - k) * 512 - 1536 = s * 512 - 512 * k := by
+  omega
+
+/-- the same bytes of `trks.bits` belong to a track before and after the re-basing -/
+theorem bitsRange_rebase (x y : Woz2) (hr : rebase x = some y) (t : Trk)
+    (hge : t.start ≥ x.off / 512) (hfit : t.start + 3 - x.off / 512 < 65536) :
+    bitsRange y (if t.start ≥ x.off / 512 then { t with start := (t.start + 3 - x.off / 512) % 65536 } else t) =
+      bitsRange x t := by
+  by_cases ho : x.off = 1536
+  · rw [rebase_std x ho] at hr; cases hr
+    have : x.off / 512 = 3 := by rw [ho]
+    rw [if_pos hge, this]
+    have hst : t.start < 65536 := by rw [this] at hfit; omega
+    have h2 : (t.start + 3 - 3) % 65536 = t.start := by omega
+    rw [h2]
+  · simp only [rebase, if_neg ho] at hr
+    by_cases hm : x.off % 512 ≠ 0
+    · rw [if_pos hm] at hr; cases hr
+    · rw [if_neg hm] at hr
+      cases hr
+      rw [if_pos hge, Nat.mod_eq_of_lt hfit]
+      have hk : x.off = 512 * (x.off / 512) := by omega
+      simp only [bitsRange]
+      obtain ⟨e1, e2⟩ := rebase_arith t.start (x.off / 512) hge
+      rw [← hk] at e1 e2
+      simp only [e2]
+      by_cases hlt : t.start * 512 < x.off
+      · rw [if_pos hlt, if_pos (e1.mpr hlt)]
+      · rw [if_neg hlt, if_neg (fun h => hlt (e1.mp h))]
+
+theorem toBytes2_of_rebase (x y : Woz2) (hr : rebase x = some y) (hy : y.off = 1536) :
+    toBytes2 x = toBytes2 y := by
+  simp only [toBytes2, hr, rebase_std y hy]
 
 end A2Verif.Lemmas.C09Woz
